@@ -634,6 +634,15 @@ ROUND2B = {
 for _p, _t in ROUND2B.items():
     PROPS[_p]["level_text"] += _t
 
+# round 2, third pass: the explicit iteration bound of the nogood search
+ROUND2C = {
+ "C05": " EXPLICIT BOUND: ng_search_halts_within_explicit_bound - 2^(n+3) iterations suffice for the concrete loop on n statements, every heuristic and both modes (counted big-step argument carried to the concrete run by the lock-step simulation); ng_search_exact_within_explicit_bound (exactness for ALL fuels from the bound on); 2^(n+3) <= 10^6 iff n <= 16.",
+ "C15": " Fuel discharged for frameworks of at most 16 statements: halted_text_for_small_frameworks, cli_text_faithful_small_frameworks (fuel 1 000 000 - the driver's bound - with NO halting hypothesis, all three arms incl. --twoval / --stmng); beyond 16 statements the hypothesis remains and is established by evaluation only.",
+ "C16": " Fuel discharged for frameworks of at most 16 statements: strategy_halts_for_small_frameworks, served_answer_for_code_small_frameworks (and the any-parsing / checked-hybrid variants) - no bound hypothesis left there.",
+}
+for _p, _t in ROUND2C.items():
+    PROPS[_p]["level_text"] += _t
+
 def case_hash(reqs):
     return hashlib.sha1("\n".join(reqs[1:]).encode()).hexdigest()[:16]
 
